@@ -549,3 +549,71 @@ pub fn check_frozen_stable<Ty: EdgeType, Ix: IndexType>(g: &mut StableGraph<u32,
     let v = crate::view!(fr; &ids, &nk, &ek; index, ncount, ecount, prop, adj);
     check_view("Frozen", &v, &truth, Flavor::Normal, &keys)
 }
+
+/// Battery for structures that only implement the undirected-level traits
+/// (IntoNeighbors + IntoEdges): undirected MatrixGraph, Csr, adj::List.
+#[macro_export]
+macro_rules! visit_battery_basic {
+    ($g:expr, $seed:expr, $nk:expr, $ek:expr, [$($basefeat:ident),*], unique_edge_ids = $uniq:expr) => {{
+        use petgraph::visit::*;
+        use $crate::engines::visit::*;
+        let g = $g;
+        let seed: u64 = $seed;
+        let nk = $nk;
+        let ek = $ek;
+        let ids: Vec<_> = g.node_identifiers().collect();
+        let keys: Vec<usize> = ids.iter().map(|&n| nk(n)).collect();
+        let base = $crate::view!(g; &ids, &nk, &ek; nodes, noderefs, edges, out, index, ncount, prop $(, $basefeat)*);
+        let truth = truth_of("base", &base, $uniq)?;
+        check_view("base", &base, &truth, Flavor::Normal, &keys)?;
+        let rr = &g;
+        let v = $crate::view!(rr; &ids, &nk, &ek; nodes, noderefs, edges, out, index, ncount, prop $(, $basefeat)*);
+        check_view("&G", &v, &truth, Flavor::Normal, &keys)?;
+        let s1 = mix(seed, 1);
+        let nf = NodeFiltered::from_fn(g, |n| node_keep(s1, nk(n)));
+        let nfr = &nf;
+        let v = $crate::view!(nfr; &ids, &nk, &ek; nodes, noderefs, edges, out, index, prop);
+        let t_nf = truth.node_filtered(&|k| node_keep(s1, k));
+        check_view("NodeFiltered", &v, &t_nf, Flavor::Normal, &keys)?;
+        let s2 = mix(seed, 2);
+        let ef = EdgeFiltered::from_fn(g, |e| edge_keep(s2, ek(e.id())));
+        let efr = &ef;
+        let v = $crate::view!(efr; &ids, &nk, &ek; nodes, noderefs, edges, out, index, ncount, prop);
+        let t_ef = truth.edge_filtered(&|e| edge_keep(s2, e.0));
+        check_view("EdgeFiltered", &v, &t_ef, Flavor::Normal, &keys)?;
+        let s3 = mix(seed, 3);
+        let nf_nf = NodeFiltered::from_fn(&nf, |n| node_keep(s3, nk(n)));
+        let r = &nf_nf;
+        let v = $crate::view!(r; &ids, &nk, &ek; nodes, noderefs, edges, out, index, prop);
+        check_view("NodeFiltered(NodeFiltered)", &v, &t_nf.node_filtered(&|k| node_keep(s3, k)), Flavor::Normal, &keys)?;
+        let ef_nf = EdgeFiltered::from_fn(&nf, |e| edge_keep(s2, ek(e.id())));
+        let r = &ef_nf;
+        let v = $crate::view!(r; &ids, &nk, &ek; nodes, noderefs, edges, out, index, prop);
+        check_view("EdgeFiltered(NodeFiltered)", &v, &t_nf.edge_filtered(&|e| edge_keep(s2, e.0)), Flavor::Normal, &keys)?;
+        let nf_ef = NodeFiltered::from_fn(&ef, |n| node_keep(s1, nk(n)));
+        let r = &nf_ef;
+        let v = $crate::view!(r; &ids, &nk, &ek; nodes, noderefs, edges, out, index, prop);
+        check_view("NodeFiltered(EdgeFiltered)", &v, &t_ef.node_filtered(&|k| node_keep(s1, k)), Flavor::Normal, &keys)?;
+        Ok::<Truth, VErr>(truth)
+    }};
+}
+
+use petgraph::matrix_graph::{MatrixGraph, Nullable};
+use petgraph::{Directed, Undirected};
+
+pub fn check_matrix_directed<Null: Nullable<Wrapped = u32>, Ix: IndexType>(g: &MatrixGraph<u32, u32, SimBuildHasher, Directed, Null, Ix>, seed: u64) -> Result<(), VErr> {
+    let nk = |n: petgraph::matrix_graph::NodeIndex<Ix>| n.index();
+    let ek = |e: (petgraph::matrix_graph::NodeIndex<Ix>, petgraph::matrix_graph::NodeIndex<Ix>)| ((e.0.index() as u64) << 32) | e.1.index() as u64;
+    let _t = visit_battery_directed!(g, seed, nk, ek, [adj], compact = false)?;
+    Ok(())
+}
+
+pub fn check_matrix_undirected<Null: Nullable<Wrapped = u32>, Ix: IndexType>(g: &MatrixGraph<u32, u32, SimBuildHasher, Undirected, Null, Ix>, seed: u64) -> Result<(), VErr> {
+    let nk = |n: petgraph::matrix_graph::NodeIndex<Ix>| n.index();
+    let ek = |e: (petgraph::matrix_graph::NodeIndex<Ix>, petgraph::matrix_graph::NodeIndex<Ix>)| {
+        let (a, b) = (e.0.index().min(e.1.index()), e.0.index().max(e.1.index()));
+        ((a as u64) << 32) | b as u64
+    };
+    let _t = visit_battery_basic!(g, seed, nk, ek, [ecount, adj], unique_edge_ids = true)?;
+    Ok(())
+}
